@@ -31,3 +31,7 @@ impl<T, E: std::fmt::Debug> HqUnwrap<T> for Result<T, E> {
     #[verifier::external_body]
     fn hq_unwrap(self) -> (r: T) { self.unwrap() }
 }
+
+// std::mem::take: returns the old value (the replacement value T::default() is left unspecified)
+pub assume_specification<T: Default> [std::mem::take] (dest: &mut T) -> (r: T)
+    ensures r == *old(dest);
